@@ -202,6 +202,9 @@ func newBinaryDecoder() encoding2.DecodeCompiler[Value] {
 				return encoding2.DecodeFunc(func(source Value, target unsafe.Pointer) error {
 					if s, ok := source.(Binary); ok {
 						t := reflect.NewAt(typ.Elem(), target).Elem()
+						if t.IsNil() {
+							t.Set(reflect.MakeSlice(t.Type(), 0, s.Len()))
+						}
 						t.Set(reflect.AppendSlice(t, reflect.ValueOf(s.Bytes()).Convert(t.Type())))
 						return nil
 					}
